@@ -236,7 +236,8 @@ func ruleC11Keys(c *Ctx, r *Rep) {
 						switch e := unparen(rs.Results[0]).(type) {
 						case *ast.BinaryExpr:
 							tx, ty := info.TypeOf(e.X), info.TypeOf(e.Y)
-							if e.Op == token.LSS && tx != nil && ty != nil && tx.String() == "string" && ty.String() == "string" {
+							hasCall := mentions(e, func(x ast.Expr) bool { _, ok := x.(*ast.CallExpr); return ok })
+							if e.Op == token.LSS && tx != nil && ty != nil && tx.String() == "string" && ty.String() == "string" && !hasCall {
 								okc = true
 							}
 						case *ast.CallExpr:
